@@ -1076,6 +1076,10 @@ EGLPNUM_TYPENAME_QSLIB_INTERFACE int EGLPNUM_TYPENAME_QSadd_ranged_rows (
 	}
 	CHECKRVALG (rval, CLEANUP);
 
+	/* the rows are in: whatever happens below, the stored solution is history */
+	drop_devex_info (p);
+	free_cache (p);
+
 	if (p->factorok == 1 && p->basis->rownorms)
 	{
 		rval = EGLPNUM_TYPENAME_ILLlib_loadrownorms (p->lp, p->pricing, p->basis->rownorms);
@@ -1083,9 +1087,6 @@ EGLPNUM_TYPENAME_QSLIB_INTERFACE int EGLPNUM_TYPENAME_QSadd_ranged_rows (
 		/* This really should go inside of EGLPNUM_TYPENAME_ILLlib_addrows, once pinf is  */
 		/* is moved into the lp struct.                                  */
 	}
-
-	drop_devex_info (p);
-	free_cache (p);
 
 CLEANUP:
 
@@ -1154,6 +1155,10 @@ EGLPNUM_TYPENAME_QSLIB_INTERFACE int EGLPNUM_TYPENAME_QSadd_rows (
 	}
 	CHECKRVALG (rval, CLEANUP);
 
+	/* the rows are in: whatever happens below, the stored solution is history */
+	drop_devex_info (p);
+	free_cache (p);
+
 	if (p->factorok == 1 && p->basis->rownorms)
 	{
 		rval = EGLPNUM_TYPENAME_ILLlib_loadrownorms (p->lp, p->pricing, p->basis->rownorms);
@@ -1161,9 +1166,6 @@ EGLPNUM_TYPENAME_QSLIB_INTERFACE int EGLPNUM_TYPENAME_QSadd_rows (
 		/* This really should go inside of EGLPNUM_TYPENAME_ILLlib_addrows, once pinf is  */
 		/* is moved into the lp struct.                                  */
 	}
-
-	drop_devex_info (p);
-	free_cache (p);
 
 CLEANUP:
 
